@@ -49,10 +49,48 @@ def desc_from_ev(ev):
     return {"call": c, "ax": ax}
 
 
+def _one_xf(rng, exact):
+    k = rng.choice(["translate", "rotate", "scale", "mirror"])
+    if k == "translate":
+        return {"call": "xf_translate", "v": [float(rng.randint(-3, 3)) for _ in range(3)] if exact else [rng.uniform(-4, 4) for _ in range(3)]}
+    if k == "rotate":
+        return {"call": "xf_rotate", "angle": float(rng.choice([90, 180, 270])) if exact else rng.uniform(-180, 180), "axis": rng.choice("xyz")}
+    if k == "scale":
+        return {"call": "xf_scale", "v": rng.choice([[2.0], [-1.0], [1.0, 2.0, -1.0]])}
+    return {"call": "xf_mirror", "plane": rng.choice(["xy", "yz", "zx"])}
+
+
+def _one_move(rng, exact):
+    ax = [None, None, None]
+    for i in rng.sample(range(3), rng.choice([1, 1, 2, 3])):
+        ax[i] = float(rng.randint(-4, 4)) if exact else round(rng.uniform(-4, 4), rng.choice([1, 2]))
+    return {"call": rng.choice(["move", "move", "rapid"]), "ax": ax}
+
+
 def random_descs(rng, n, exact):
     out = []
+    depth, named = 0, []
     for _ in range(n):
         x = rng.random()
+        if x < 0.08:
+            # a transform context (added after seed C04g): `with g.current_transform():` / `with g.named_transform(name):`, a
+            # change of the frame and moves inside, and -- what matters -- moves right after the block, under the outer frame
+            if depth and rng.random() < 0.6:
+                depth -= 1
+                out.append({"call": "xf_ctx_exit"})
+                out += [_one_move(rng, exact) for _ in range(rng.choice([1, 1, 2]))]
+            elif depth < 2:
+                if not named or rng.random() < 0.3:
+                    nm = rng.choice(["a", "b"])
+                    out += [{"call": "xf_save"}, _one_xf(rng, exact), {"call": "xf_save_named", "name": nm}, {"call": "xf_restore"}]
+                    named.append(nm)
+                depth += 1
+                if rng.random() < 0.5:
+                    out += [{"call": "xf_ctx_enter"}, _one_xf(rng, exact)]
+                else:
+                    out.append({"call": "xf_ctx_named_enter", "name": rng.choice(named)})
+                out += [_one_move(rng, exact) for _ in range(rng.choice([1, 2]))]
+            continue
         if x < 0.25:
             k = rng.choice(["translate", "rotate", "scale", "mirror", "reflect", "set_pivot", "save", "restore"])
             if k == "translate":
@@ -87,6 +125,10 @@ def random_descs(rng, n, exact):
             if rng.random() < 0.2:
                 d["F"] = 100.0
             out.append(d)
+    while depth:
+        depth -= 1
+        out.append({"call": "xf_ctx_exit"})
+        out.append(_one_move(rng, exact))
     return out
 
 
